@@ -33,6 +33,8 @@ import (
 
 // The gutter is parsed tolerantly (|, box-drawing bars or a colon; one or
 // several carets): the property is about what is shown, not about the frame.
+const bom = "\xef\xbb\xbf"
+
 var numbered = regexp.MustCompile(`^( *(\d+) (?:\||│|┃|:) )(.*)$`)
 var caretLn = regexp.MustCompile(`^( * (?:\||│|┃|:) )([ \t]*)\^+~*$`)
 
@@ -179,6 +181,13 @@ func matches(ex *excerpt, v []byte, L, C, limit int, agg *core.Agg) (ok bool, wh
 			return false, fmt.Sprintf("class=context-not-neighbouring: excerpt shows line %d of a %d-line file", l.n, n), score
 		}
 		src := lines[l.n-1]
+		col := C
+		if l.n == 1 && strings.HasPrefix(src, bom) && len(parsesOf(l.text, src, limit, 0)) == 0 {
+			// a renderer may leave the byte order mark out of the display; the column,
+			// which counts its three bytes, then addresses the text three bytes earlier
+			src, col = src[len(bom):], C-len(bom)
+			agg.Inc("probe.line1_shown_without_bom")
+		}
 		ps := parsesOf(l.text, src, limit, 0)
 		if len(ps) == 0 {
 			if len(l.text) > limit+6 {
@@ -192,7 +201,7 @@ func matches(ex *excerpt, v []byte, L, C, limit int, agg *core.Agg) (ok bool, wh
 			if l.caret == nil {
 				return false, fmt.Sprintf("class=caret-missing: no caret line under line %d", L), score
 			}
-			if C >= 1 && C <= len(src) {
+			if C := col; C >= 1 && C <= len(src) {
 				okCaret := false
 				contains := false
 				for _, p := range parsesOf(l.text, src, limit, C) {
